@@ -118,8 +118,9 @@ package multiboot
 //@ spec elfNum(b uintptr) uintptr = uintptr(mem16(elfTag(b)+8))
 //@ spec elfSec(b uintptr, k uintptr) uintptr = elfTag(b) + 20 + k*64
 //@ spec elfStrtab(b uintptr) uintptr = uintptr(mem64(elfSec(b, uintptr(mem32(elfTag(b)+16))) + 16))
-// the tag holds all its section headers and the string-table index names one of them
-//@ pred wfElf(b uintptr) = firstTag(b, elfIdx(b), 9) && uintptr(mem32(elfTag(b)+4)) >= 20 + elfNum(b)*64 && uintptr(mem32(elfTag(b)+16)) < elfNum(b)
+// the tag holds all its section headers and - unless the table is empty - the string-table index
+// names one of them
+//@ pred wfElf(b uintptr) = firstTag(b, elfIdx(b), 9) && uintptr(mem32(elfTag(b)+4)) >= 20 + elfNum(b)*64 && (elfNum(b) == 0 || uintptr(mem32(elfTag(b)+16)) < elfNum(b))
 
 // ghost log of section-visitor invocations; elfLogSec is written by VisitElfSections' own contract
 // (the header the call was made for), the rest by the assumed abstract visitor
